@@ -30,6 +30,8 @@ type tuple struct {
 	Cfg   deploy.Config `json:"config"`
 	Reuse bool          `json:"reuse"`
 	TO1   bool          `json:"via_to1"`
+	// LZ: manufacturer and owner keys whose public X or Y coordinate starts with a zero byte (EC only)
+	LZ bool `json:"leading_zero_keys,omitempty"`
 }
 
 // validKex is the independent validity table (FDO 1.1 §3.6.5 as the library
@@ -74,7 +76,10 @@ func allTuples() []tuple {
 				for _, c := range deploy.CipherNames {
 					for _, reuse := range []bool{false, true} {
 						for _, to1 := range []bool{false, true} {
-							out = append(out, tuple{deploy.Config{Key: k, Enc: e, Kex: kx, Cipher: c}, reuse, to1})
+							out = append(out, tuple{Cfg: deploy.Config{Key: k, Enc: e, Kex: kx, Cipher: c}, Reuse: reuse, TO1: to1})
+							if !strings.HasPrefix(k, "RSA") && c == "A128GCM" && validKex(k, kx) {
+								out = append(out, tuple{Cfg: deploy.Config{Key: k, Enc: e, Kex: kx, Cipher: c}, Reuse: reuse, TO1: to1, LZ: true})
+							}
 						}
 					}
 				}
@@ -151,7 +156,12 @@ func evalTuple(t tuple) ev.Result {
 	cfg := t.Cfg
 	tag := fmt.Sprintf("%s/%s/%s/%s reuse=%v to1=%v", cfg.Key, cfg.Enc, cfg.Kex, cfg.Cipher, t.Reuse, t.TO1)
 	valid := validKex(cfg.Key, cfg.Kex)
-	mfg, o1, o2, rv := deploy.NewMemService("mfg", deploy.KeyMfg), deploy.NewMemService("owner1", deploy.KeyOwner1), deploy.NewMemService("owner2", deploy.KeyOwner2), deploy.NewMemService("rv", deploy.KeyStranger)
+	kMfg, kO1, kO2 := deploy.KeyMfg, deploy.KeyOwner1, deploy.KeyOwner2
+	if t.LZ {
+		kMfg, kO1, kO2 = keys.LeadingZero, keys.LeadingZero+1, keys.LeadingZero+2
+		tag += " leading-zero-keys"
+	}
+	mfg, o1, o2, rv := deploy.NewMemService("mfg", kMfg), deploy.NewMemService("owner1", kO1), deploy.NewMemService("owner2", kO2), deploy.NewMemService("rv", deploy.KeyStranger)
 	for _, o := range []*deploy.Service{o1, o2} {
 		o.Reuse = t.Reuse
 		o.Modules.Factory = sweepFactory(o.J)
@@ -178,7 +188,7 @@ func evalTuple(t tuple) ev.Result {
 	if err := dev.BlobRoundTrip(); err != nil {
 		return ev.Failf("blob", "%s: %v", tag, err)
 	}
-	if _, err := deploy.TransferVoucher(ctx, cfg, mfg, deploy.KeyMfg, o1, deploy.KeyOwner1, dev.Cred.GUID); err != nil {
+	if _, err := deploy.TransferVoucher(ctx, cfg, mfg, kMfg, o1, kO1, dev.Cred.GUID); err != nil {
 		return ev.Failf("extend", "%s: extending the DI voucher to the first owner: %v", tag, err)
 	}
 
@@ -277,8 +287,24 @@ func evalTuple(t tuple) ev.Result {
 		res.ID = tag
 		return res
 	}
+	rounds := 1
+	if t.Reuse {
+		// the first owner extends the voucher to its own key once more (a legal, if unusual, resale) and
+		// onboards the device again through the SAME server objects: the voucher now has one entry more
+		self, err := o1.TO2.Resell(ctx, dev.Cred.GUID, deploy.OwnerPublic(cfg, kO1), nil)
+		if err != nil {
+			return ev.Failf("resell", "%s: the first owner extending the voucher to itself failed: %v", tag, err)
+		}
+		if err := o1.State.AddVoucher(ctx, self); err != nil {
+			return ev.Failf("resell", "%s: %v", tag, err)
+		}
+		rounds++
+		if r := round(o1, rounds); r != nil {
+			return *r
+		}
+	}
 	// resale to the second owner, then a second onboarding
-	var next crypto.PublicKey = deploy.OwnerPublic(cfg, deploy.KeyOwner2)
+	var next crypto.PublicKey = deploy.OwnerPublic(cfg, kO2)
 	x, err := o1.TO2.Resell(ctx, dev.Cred.GUID, next, nil)
 	if err != nil {
 		return ev.Failf("resell", "%s: Resell to the second owner failed: %v", tag, err)
@@ -289,7 +315,7 @@ func evalTuple(t tuple) ev.Result {
 	if _, ok := o1.Mem.VoucherBytes(dev.Cred.GUID); ok {
 		return ev.Failf("resell-kept-voucher", "%s: the first owner still holds the voucher after resale", tag)
 	}
-	if r := round(o2, 2); r != nil {
+	if r := round(o2, rounds+1); r != nil {
 		return *r
 	}
 	res := ev.OK("onboarded")
